@@ -19,9 +19,13 @@ Lemma get_tree_In w ti t : get_tree w ti = Some t -> In t (trees w).
 Proof. unfold get_tree. apply nth_error_In. Qed.
 
 Lemma WFw_snoc w t k :
-  WFw w -> WF t -> ids (forest_of t) = seq (next w) k -> WFw (W (trees w ++ [t]) (next w + k)).
+  WFw w -> 0 < next w -> WF t -> ids (forest_of t) = seq (next w) k -> WFw (W (trees w ++ [t]) (next w + k)).
 Proof.
-  intros [H1 H2 H3] Ht Ei. constructor.
+  (* written against the fields by name: WFw may carry more clauses (e.g. 0 < next) in other branches *)
+  intros Hw Hpos Ht Ei.
+  pose proof (ww_trees w Hw) as H1. pose proof (ww_disj w Hw) as H2. pose proof (ww_next w Hw) as H3.
+  constructor.
+  all: try match goal with |- 0 < _ => cbn [next]; lia end.
   - cbn [trees]. apply Forall_app. split; [exact H1|]. constructor; [exact Ht|constructor].
   - rewrite all_ids_snoc, Ei. apply NoDup_app_intro; [exact H2|apply seq_NoDup|].
     intros x Hx Hs. rewrite Forall_forall in H3. apply H3 in Hx. apply in_seq in Hs. lia.
@@ -36,9 +40,9 @@ Proof.
   intros Hw Hn H.
   destruct (tree_copy_effect w sti r w' H) as (st & kids & rg & ix & Est & _ & Et & Hs & Hi & _ & Hnx & Hr & Hix).
   destruct w' as [ts' n']. cbn [trees next] in *. subst ts' n'.
-  apply (WFw_snoc w _ (size_f (forest_of st)) Hw); [|exact Hi].
+  apply (WFw_snoc w _ (size_f (forest_of st)) Hw Hn); [|exact Hi].
   assert (Hst : WF st).
-  { destruct Hw as [H1 _ _]. rewrite Forall_forall in H1. apply H1. now apply (get_tree_In w sti). }
+  { pose proof (ww_trees w Hw) as H1. rewrite Forall_forall in H1. apply H1. now apply (get_tree_In w sti). }
   apply (WF_fresh_copy _ _ _ _ (forest_of st) (next w)); auto. apply (wf_su _ Hst).
 Qed.
 
@@ -64,7 +68,7 @@ Proof.
   destruct (node_copy_effect w sti src add_self r w' H)
     as (st & s & kids & rg & ix & Est & Es & _ & Et & Hk & _ & Hnx & Hr & Hix).
   assert (Hst : WF st).
-  { destruct Hw as [H1 _ _]. rewrite Forall_forall in H1. apply H1. now apply (get_tree_In w sti). }
+  { pose proof (ww_trees w Hw) as H1. rewrite Forall_forall in H1. apply H1. now apply (get_tree_In w sti). }
   destruct (get_node_spec src _ s Es) as (Hin & _).
   assert (Hsus : SU (rch s)) by (apply (SU_pre_f (forest_of st)); [apply (wf_su _ Hst)|exact Hin]).
   destruct w' as [ts' n']. cbn [trees next] in *. subst ts' n'.
@@ -72,14 +76,14 @@ Proof.
   - destruct Hk as (x & -> & Hc).
     assert (Ei : ids [x] = seq (next w) (size s)).
     { change (ids [x]) with (map rid (pre x ++ [])). rewrite app_nil_r. exact (ic_ids _ _ _ _ _ _ Hc). }
-    apply (WFw_snoc w _ (size s) Hw); [|exact Ei].
+    apply (WFw_snoc w _ (size s) Hw Hn); [|exact Ei].
     apply (WF_fresh _ _ _ _ (next w) (size s)); auto.
     constructor.
     + cbn. constructor; [intros []|constructor].
     + intros t [<-|[]]. apply (SU_strip_eq (typed st) (rch s)); [|exact Hsus].
       symmetry. exact (ic_kids _ _ _ _ _ _ Hc).
   - destruct Hk as (Hs & Hi).
-    apply (WFw_snoc w _ (size_f (rch s)) Hw); [|exact Hi].
+    apply (WFw_snoc w _ (size_f (rch s)) Hw Hn); [|exact Hi].
     apply (WF_fresh_copy _ _ _ _ (rch s) (next w)); auto.
 Qed.
 
